@@ -33,6 +33,11 @@ public class Math {
         throw new RuntimeException();
     }
 
+    public static int length(BigInteger b) {
+        // FOAM big integers are sign and magnitude: the length is that of the magnitude (as in the C run time)
+        return b.abs().bitLength();
+    }
+
     public static MultiRecord divide(int i1, int i2) {
         MultiRecord result = new MultiRecord(divideFormat);
         result.setField(0, "quo", Value.U.fromSInt(i1 / i2));
